@@ -43,6 +43,9 @@ def run(res):
     res.coverage['rule'] = 'generic JSON pairs as in C02;'
     diffcommon.run_diff_cases(res, {'C11'}, 'C11', {}, quick=(32, 80), thorough=(128, 300))
     mergecommon.run_merge_cases(res, {'C03', 'C11'}, 'C11', KNOWN, quick=(32, 60, 10), thorough=(96, 100, 60))
+    from . import localecommon
+    # the diff as the diff command writes it to a file (JSON round trip / schema clause), also under a non-UTF-8 locale
+    localecommon.difffile_part(res, kinds=('difffile:nbdiff-status', 'difffile:not-json', 'difffile:differs', 'difffile:invalid'))
     res.coverage['explanation'] = (
         'Proof part: wf_seq(result, len(a)) is a discharged postcondition of diff_from_lcs, diff_sequence_bruteforce, diff_sequence and '
         'diff_lists, and the builder order is a discharged postcondition of SequenceDiffBuilder.append (%d obligations, %d discharged). '
